@@ -223,7 +223,8 @@ def _check(prop, tier, jobs, verbose, seed, t0, evid_path):
         print("KNOWN-FINDING: property=%s %s -- %s" % (prop, k["obligation"], (kf_match(kf, prop, k["obligation"]) or {}).get("text", "")))
     for v in violations:
         tail = "" if v.get("reproduced") else " no-failing-input-found"
-        print("VIOLATION property=%s replay=%s obligation=%s%s" % (prop, v["replay"], v["obligation"], tail))
+        print("  failing obligation: %s" % v["obligation"])
+        print("VIOLATION property=%s replay=%s%s" % (prop, v["replay"], tail))
 
     level = getattr(pym, "LEVEL", "proof")
     wall = time.time() - t0
